@@ -898,7 +898,14 @@ func (e *env) cfgOp(netmap bool, key, val []byte, alphaClass int) {
 		h, model, name = e.nfs, e.nfsCfg, "neofs"
 	}
 	e.seq++
-	r := e.w.Invoke(s, h, "setConfig", []byte{byte(e.seq), byte(e.seq >> 8)}, key, val)
+	var id any = []byte{byte(e.seq), byte(e.seq >> 8)}
+	switch e.b.Rng.IntN(5) {
+	case 0:
+		id = []byte("one event for several keys") // ids may come back: the id names the event, not the key
+	case 1:
+		id = nil
+	}
+	r := e.w.Invoke(s, h, "setConfig", id, key, val)
 	b.Tx(1)
 	if aw != r.Halted() {
 		b.Violation(fmt.Sprintf("%s.setConfig by %s: %s %s", name, sd, r.State, r.Fault), e.detail(r))
